@@ -103,6 +103,14 @@ impl Prop for C01Prop {
                 }
             }
         }
+        // small scope: every payload over {00, 1b, 01, 1a, 55} up to length 4 (thorough: 6)
+        let maxlen = if tier == Tier::Thorough { 6 } else { 4 };
+        for (i, p) in gen::all_strings(&[0x00, 0x1b, 0x01, 0x1a, 0x55], maxlen).into_iter().enumerate() {
+            let fe = fes[i % fes.len()];
+            let enc = if (i / fes.len()) % 2 == 0 { Enc::Buf } else { Enc::Iter };
+            let buf = if fe == Fe::Decode || i % 3 == 0 { BufKind::Vec } else { BufKind::Arr(fe::ladder_at_least(p.len())) };
+            v.push(Scenario::Link(scn_for(p, enc, fe, buf, "directed-small-scope")));
+        }
         // lengths around the 8-bit pad counter wrap through the iterator encoder
         let lens: Vec<usize> = (252..=260).chain(1020..=1028).chain(if tier == Tier::Thorough { 65532..=65540 } else { 0..=0 }).collect();
         for n in lens {
